@@ -75,7 +75,14 @@ def prepare_v0(case, seed, rows=True):
 
 def install_v1(case, label='e1'):
     evorig.install_models(case['spec1'])
-    evorig.set_evolutions('vapp', [{'label': label, 'mutations': [sigs.real_mutation(m) for m in case['muts']]}])
+    if case.get('evolutions'):
+        # several pending evolutions of vapp, each with its own dependencies: [{'label', 'muts', 'after_evolutions', ...}]
+        evorig.set_evolutions('vapp', [dict({'label': e['label'], 'mutations': [sigs.real_mutation(m) for m in e['muts']]},
+                                            **{k: e[k] for k in ('after_evolutions', 'before_evolutions',
+                                                                 'after_migrations', 'before_migrations') if e.get(k)})
+                                       for e in case['evolutions']])
+    else:
+        evorig.set_evolutions('vapp', [{'label': label, 'mutations': [sigs.real_mutation(m) for m in case['muts']]}])
     # pending evolutions of further apps of the case (app label -> mutations)
     for app, muts in (case.get('extra_evolutions') or {}).items():
         evorig.set_evolutions(app, [{'label': label, 'mutations': [sigs.real_mutation(m) for m in muts]}])
